@@ -56,6 +56,26 @@ class Subgrid:
                 good.append((e0, call, rows, self._row(rows.elt)))
                 self.aliasing_returns = []
                 self.fill_and_copy = True
+        self.mismatches: List[str] = []
+        self.spelling = 'comprehension' if good else ''
+        if not good:
+            # rows assembled from segments (slice and pad, per-cell rows built by a local
+            # function / loop): the structure is read, the bounds are compared with the
+            # documented slice, and the model continues on the comprehension they denote
+            from . import rowsegs
+            seg = rowsegs.read(index, f)
+            if seg is not None:
+                pads, self.mismatches, self.spelling = seg
+                ap = self.area_param
+                call = ast.parse(
+                    f'Grid([[self.objects[y][x] if 0 <= y < self.shape.height and '
+                    f'0 <= x < self.shape.width else {src(pads[0])} '
+                    f'for x in {ap}.x_coordinates()] for y in {ap}.y_coordinates()])',
+                    mode='eval').body
+                rows = call.args[0]
+                good.append((rets[-1], call, rows, self._row(rows.elt)))
+                self.aliasing_returns = []
+                self.extra_pads = pads[1:]
         self.returns_self = bool(self.aliasing_returns)
         if not good:
             shared = self._shared_rows(w, rets)
@@ -102,7 +122,8 @@ class Subgrid:
         self.outer_range, self.inner_range = base['outer_range'], base['inner_range']
         self.elt = base['elt']
         self.inside_val = base['cell']
-        self.pad_vals = [p_ for m_ in models for p_ in m_['pads']]
+        self.pad_vals = [p_ for m_ in models for p_ in m_['pads']] + \
+            list(getattr(self, 'extra_pads', []))
         self.pad_val = self.pad_vals[0] if self.pad_vals else None
         # test(row, col, area bounds, grid size): the element is the cell (not padding), the
         # return path being selected by its guard
